@@ -30,7 +30,7 @@ RULE = ("seeded distributions (1-5 keys over 1-3 topologies, positive weights in
         "not), motif-size vectors incl. 1, N in 1..15 (thorough ..60), built directly and through the type "
         "dispatching entry point; draw schedules uniform / extreme floats (first/last key) / min,max,sticky "
         "vertex choice / mix; aborts mid-sampling then reuse; 40% of the multi-sample histories edit the loader's distribution "
-        "IN PLACE between samples (all keys replaced / re-weighted / a heavy key added) and the next sample is judged against the "
+        "IN PLACE between samples (all keys replaced / re-weighted / a heavy key added, and / or one entry of the loader's live motif-size list changed) and the next sample is judged against the "
         "edited distribution; 15% pass N and / or the key components as numpy int64; non-trivial = the sample needed at least one "
         "handshake patch or had N>=2; distinct = distinct execution digests.  Weighted-draw law: size-1 "
         "configurations (no patching) AND N=1 configurations that need the patch but whose drawn key can be read back from the "
